@@ -2,6 +2,8 @@ package main
 
 import (
 	"context"
+	"sync/atomic"
+	"io"
 	"encoding/json"
 	"os"
 	"path/filepath"
@@ -96,8 +98,12 @@ type revCase struct {
 	CRL     map[string]crlDelivery // by URL
 	HTTPCRL bool                   // deliver CRLs through the real HTTPFetcher over the transport
 	ST      time.Time              // zero = no signing time
-	Cancel  string                 // "" | "before" | "during"
+	Cancel  string                 // "" | "before" | "during" (at the first exchange) | "after1" (once the first exchange has completed); only with one certificate naming sources and Entry 0
 	Labels  []string
+	Iso     *revCase // C06 isolation companion: same chain, the URLs of position IsoPos behave identically, all others differently
+	IsoPos  int
+	CRLFault map[string]string // by URL, with HTTPCRL and FetchErr: how the download fails (503 | 404 | empty | garbage | oversized | truncated | transport | timeout | readerr)
+	Cache   string            // with HTTPCRL: "" no cache | "miss" | "getfail" | "setfail" | "getfail-discard" | "setfail-discard" | "stale" (expired entry cached)
 }
 
 type certOut struct {
@@ -110,12 +116,33 @@ type certOut struct {
 // runRevCase executes the case against the implementation and renders the Coq case term
 // (fields of Run/Rev.v rcase after the id) plus a JSON description.
 func runRevCase(c *revCase) (string, map[string]any, []certOut, bool) {
+	term, _, desc, outs, panicked := runRevCaseFull(c)
+	iso := "None 0"
+	if c.Iso != nil {
+		_, impl2, d2, _, p2 := runRevCaseFull(c.Iso)
+		if p2 {
+			impl2 = "None"
+		}
+		iso = fmt.Sprintf("%s %d", impl2, c.IsoPos)
+		desc["iso"] = map[string]any{"pos": c.IsoPos, "impl": d2["impl"], "ocsp": d2["ocsp"], "crl": d2["crl"]}
+	}
+	return term + " " + iso, desc, outs, panicked
+}
+
+func runRevCaseFull(c *revCase) (string, string, map[string]any, []certOut, bool) {
 	xs := c.Chain.xs()
 	rt := newWorldRT()
 	wf := newWorldFetcher()
 	seq := &eventSeq{}
 	rt.seq, wf.seq = seq, seq
 	var ocspTerms, fetchTerms []string
+	allowed, contactable := 1<<30, 0 // exchanges that complete before the context is cancelled
+	switch c.Cancel {
+	case "before", "during":
+		allowed = 0
+	case "after1":
+		allowed = 1
+	}
 	desc := map[string]any{"entry": c.Entry, "purpose": c.Purpose, "len": len(xs), "labels": c.Labels, "http_crl": c.HTTPCRL, "cancel": c.Cancel}
 	od := map[string]string{}
 	cd := map[string]any{}
@@ -130,8 +157,11 @@ func runRevCase(c *revCase) (string, map[string]any, []certOut, bool) {
 			}
 			od[u] = b.String()
 			h, term := ocspHandlerFor(b, cert, issuer)
-			if c.Cancel == "before" && term != "UBadURL" {
-				term = "UErr"
+			if term != "UBadURL" {
+				contactable++
+				if contactable > allowed {
+					term = "UErr"
+				}
 			}
 			if h != nil {
 				rt.handlers[u] = h
@@ -146,11 +176,14 @@ func runRevCase(c *revCase) (string, map[string]any, []certOut, bool) {
 			}
 			term := "FetchErr"
 			dd := map[string]any{"fetch_err": d.FetchErr}
+			contactable++
+			cancelled := contactable > allowed
 			if d.PanicV != nil {
 				wf.res[u] = fetchResult{panicV: d.PanicV}
-			} else if d.FetchErr || c.Cancel == "before" {
+			} else if d.FetchErr || cancelled {
 				wf.res[u] = fetchResult{err: errors.New("fetch failed (injected)")}
-				rt.handlers[u] = func(*http.Request) (*http.Response, error) { return httpBody(503, nil) }
+				rt.handlers[u] = crlFaultHandler(c.CRLFault[u], issuer)
+				dd["fault"] = c.CRLFault[u]
 			} else {
 				baseSpec := *d.Base
 				deltaURL := u + ".delta"
@@ -174,6 +207,9 @@ func runRevCase(c *revCase) (string, map[string]any, []certOut, bool) {
 				}
 				wf.res[u] = fetchResult{bundle: bundle}
 				term = fmt.Sprintf("(Fetched (Bundle %s %s))", bt, dt)
+				if c.HTTPCRL && (c.Cache == "getfail" || c.Cache == "setfail") {
+					term = "FetchErr" // the cache failure is returned as the fetch error
+				}
 			}
 			cd[u] = dd
 			fetchTerms = append(fetchTerms, fmt.Sprintf("(%d, %s)", urlIDs.id([]byte(u)), term))
@@ -188,7 +224,16 @@ func runRevCase(c *revCase) (string, map[string]any, []certOut, bool) {
 		if err != nil {
 			panic(err)
 		}
-		fetcher = hf
+		if c.Cache != "" {
+			hf.Cache = &faultCache{mode: c.Cache, stale: staleBundleFor(c)}
+			hf.DiscardCacheError = c.Cache == "getfail-discard" || c.Cache == "setfail-discard"
+		}
+		fetcher = &loggingFetcher{inner: hf, seq: seq}
+		for i := 0; i < len(xs)-1; i++ {
+			for _, u := range xs[i].CRLDistributionPoints {
+				rt.noSeq[u] = true
+			}
+		}
 	}
 	purp := purpose.CodeSigning
 	purpZ := 0
@@ -199,6 +244,15 @@ func runRevCase(c *revCase) (string, map[string]any, []certOut, bool) {
 	defer cancel()
 	if c.Cancel == "before" {
 		cancel()
+	}
+	if c.Cancel == "during" || c.Cancel == "after1" {
+		var nreq int32
+		hook := func(string) {
+			if int(atomic.AddInt32(&nreq, 1)) > allowed {
+				cancel()
+			}
+		}
+		rt.onReq, wf.onReq = hook, hook
 	}
 	noteCurrentCase(desc)
 	now := time.Now()
@@ -277,7 +331,7 @@ func runRevCase(c *revCase) (string, map[string]any, []certOut, bool) {
 	sort.Strings(ocspTerms)
 	sort.Strings(fetchTerms)
 	term := fmt.Sprintf("%d %d %s %s %s %s %s %s %s %s %s", c.Entry, purpZ, chainTerm(xs), sf, ss, cList(ocspTerms), cList(fetchTerms), cZ(now.UnixNano()), cZ(stZ), implTerm, cB(panicked))
-	return term, desc, outs, panicked
+	return term, implTerm, desc, outs, panicked
 }
 
 func resTerm(r int) string {
@@ -312,4 +366,66 @@ func noteCurrentCase(desc map[string]any) {
 	}
 	b, _ := json.Marshal(desc)
 	os.WriteFile(filepath.Join(currentCaseDir, "current_case.json"), b, 0o644)
+}
+
+// crlFaultHandler: how a CRL download fails over the real HTTPFetcher
+func crlFaultHandler(kind string, issuer *Cert) rtHandler {
+	switch kind {
+	case "404":
+		return func(*http.Request) (*http.Response, error) { return httpBody(404, []byte("not found")) }
+	case "empty":
+		return func(*http.Request) (*http.Response, error) { return httpBody(200, nil) }
+	case "garbage":
+		return func(*http.Request) (*http.Response, error) { return httpBody(200, []byte("-----BEGIN X509 CRL-----\nnot der\n")) }
+	case "truncated":
+		der := buildCRL(crlSpec{Number: 5, Next: "+1h", Signer: "issuer"}, issuer, big.NewInt(1))
+		return func(*http.Request) (*http.Response, error) { return httpBody(200, der[:len(der)/2]) }
+	case "oversized":
+		return func(*http.Request) (*http.Response, error) { return httpBody(200, make([]byte, 33*1024*1024)) }
+	case "transport":
+		return func(*http.Request) (*http.Response, error) { return nil, errors.New("connection refused (injected)") }
+	case "timeout":
+		return func(*http.Request) (*http.Response, error) { return nil, timeoutErr{} }
+	case "readerr":
+		return func(*http.Request) (*http.Response, error) {
+			return &http.Response{StatusCode: 200, Body: io.NopCloser(errReader{}), Header: http.Header{}}, nil
+		}
+	case "302":
+		return func(*http.Request) (*http.Response, error) { return httpBody(302, nil) }
+	}
+	return func(*http.Request) (*http.Response, error) { return httpBody(503, nil) }
+}
+
+// faultCache: a crl.Cache that misses, fails, or serves a stale (expired) bundle
+type faultCache struct {
+	mode  string
+	stale *crlpkg.Bundle
+}
+
+func (f *faultCache) Get(ctx context.Context, url string) (*crlpkg.Bundle, error) {
+	switch f.mode {
+	case "getfail", "getfail-discard":
+		return nil, errors.New("cache get failed (injected)")
+	case "stale":
+		if f.stale != nil {
+			return f.stale, nil
+		}
+	}
+	return nil, crlpkg.ErrCacheMiss
+}
+func (f *faultCache) Set(ctx context.Context, url string, b *crlpkg.Bundle) error {
+	switch f.mode {
+	case "setfail", "setfail-discard":
+		return errors.New("cache set failed (injected)")
+	}
+	return nil
+}
+
+// an expired but otherwise clean bundle signed by the leaf's issuer: must never be served
+func staleBundleFor(c *revCase) *crlpkg.Bundle {
+	if len(c.Chain.certs) < 2 {
+		return nil
+	}
+	der := buildCRL(crlSpec{Number: 4, Next: "-1h", Signer: "issuer"}, c.Chain.certs[1], c.Chain.certs[0].X.SerialNumber)
+	return &crlpkg.Bundle{BaseCRL: mustParseCRL(der)}
 }
